@@ -7,41 +7,39 @@ namespace Selen
 
 namespace IView
 
-/-- views without `Next`/`Prev` (these do not shift a float bound, see `trySetMinF`) -/
-def NoStep : IView → Prop
-  | .const _ => True
-  | .var _ => True
-  | .opp v => v.NoStep
-  | .plus v _ => v.NoStep
-  | .tpos v _ => v.NoStep
-  | .next _ => False
-  | .prev _ => False
-
-/-- on step-free views the float-bound setters are the integer setters -/
-theorem trySetF_eq (v : IView) (h : v.NoStep) :
+/-- the float-bound setters are the integer setters on every view (since the repair
+`fix: Next/Prev views shift a float bound by one on integer operands`; before it `Next`/`Prev`
+passed the bound through unchanged) -/
+theorem trySetF_eq (v : IView) :
     (∀ m c, v.trySetMinF m c = v.trySetMin m c) ∧ (∀ m c, v.trySetMaxF m c = v.trySetMax m c) := by
   induction v with
   | const k => exact ⟨fun _ _ => rfl, fun _ _ => rfl⟩
   | var i => exact ⟨fun _ _ => rfl, fun _ _ => rfl⟩
   | opp v ih =>
-    obtain ⟨i1, i2⟩ := ih h
+    obtain ⟨i1, i2⟩ := ih
     exact ⟨fun m c => by simp only [trySetMinF, trySetMin]; exact i2 _ _,
            fun m c => by simp only [trySetMaxF, trySetMax]; exact i1 _ _⟩
   | plus v k ih =>
-    obtain ⟨i1, i2⟩ := ih h
+    obtain ⟨i1, i2⟩ := ih
     exact ⟨fun m c => by simp only [trySetMinF, trySetMin]; exact i1 _ _,
            fun m c => by simp only [trySetMaxF, trySetMax]; exact i2 _ _⟩
   | tpos v k ih =>
-    obtain ⟨i1, i2⟩ := ih h
+    obtain ⟨i1, i2⟩ := ih
     exact ⟨fun m c => by simp only [trySetMinF, trySetMin]; exact i1 _ _,
            fun m c => by simp only [trySetMaxF, trySetMax]; exact i2 _ _⟩
-  | next v ih => exact h.elim
-  | prev v ih => exact h.elim
+  | next v ih =>
+    obtain ⟨i1, i2⟩ := ih
+    exact ⟨fun m c => by simp only [trySetMinF, trySetMin]; exact i1 _ _,
+           fun m c => by simp only [trySetMaxF, trySetMax]; exact i2 _ _⟩
+  | prev v ih =>
+    obtain ⟨i1, i2⟩ := ih
+    exact ⟨fun m c => by simp only [trySetMinF, trySetMin]; exact i1 _ _,
+           fun m c => by simp only [trySetMaxF, trySetMax]; exact i2 _ _⟩
 
-theorem trySetMinF_eq {v : IView} (h : v.NoStep) (m : Int) (c : Ctx) : v.trySetMinF m c = v.trySetMin m c :=
-  (trySetF_eq v h).1 m c
-theorem trySetMaxF_eq {v : IView} (h : v.NoStep) (m : Int) (c : Ctx) : v.trySetMaxF m c = v.trySetMax m c :=
-  (trySetF_eq v h).2 m c
+theorem trySetMinF_eq (v : IView) (m : Int) (c : Ctx) : v.trySetMinF m c = v.trySetMin m c :=
+  (trySetF_eq v).1 m c
+theorem trySetMaxF_eq (v : IView) (m : Int) (c : Ctx) : v.trySetMaxF m c = v.trySetMax m c :=
+  (trySetF_eq v).2 m c
 
 /-- view bounds only tighten when the domains shrink (and stay non-empty) -/
 theorem raw_mono (v : IView) (hwf : v.WF) {st st' : Store} (hsub : ∀ i, (st' i).Sublist (st i))
